@@ -37,28 +37,38 @@ def run(check):
   g = cx.cfg(wf)
   drains = set(nodes_calling(g, lambda c: cx.calls_function(c, wf, 'carbon.writer', 'writeCachedDataPoints')))
   r_fd.require(drains, 'writeForever does not call writeCachedDataPoints at all')
-  stop_edges = g.test_edges(lambda pol, t, n: pol == 'F' and _mentions_running(t))
-  # a constant-true loop with an explicit stop test is covered by the same edge predicate
-  r_fd.require(stop_edges, 'no test of reactor.running found in writeForever (stop condition not recognised)')
-  for (a, lab, b) in stop_edges:
-    rr = g.reach([b], removed_nodes=drains)
+  # the stop is observed wherever reactor.running is READ (in a loop test, or into a local that is tested later): every
+  # path from such a read to the return of the writer thread passes a drain pass
+  def own_expr(n):
+    if n.ast is None:
+      return None
+    if n.kind == 'test':
+      return n.ast
+    if isinstance(n.ast, (ast.If, ast.While)):
+      return n.ast.test
+    if isinstance(n.ast, (ast.For, ast.With, ast.Try, ast.FunctionDef, ast.ClassDef)):
+      return None
+    return n.ast
+  reads = [n for n in g.nodes if n.kind in ('stmt', 'test') and own_expr(n) is not None and n not in drains and
+           any(_mentions_running(x) for x in walk_no_nested(own_expr(n)) if isinstance(x, ast.Attribute) and isinstance(x.ctx, ast.Load))]
+  r_fd.require(reads, 'no read of reactor.running found in writeForever (stop condition not recognised)')
+  for a in reads:
+    succs = [b_ for (b_, lab) in a.succ if lab != 'exc']
+    rr = g.reach(succs, removed_nodes=drains)
     if g.exit in rr:
-      p = g.path([b], g.exit, removed_nodes=drains)
+      p = g.path(succs, g.exit, removed_nodes=drains)
       r_fd.violate('stop observed at line %d' % a.lineno, wf, a.ast,
-                   'after reactor.running is observed False here the writer thread can return without another '
+                   'after reactor.running is read here (and found False) the writer thread can return without another '
                    'call to writeCachedDataPoints(): datapoints stored since the last pass stay in the cache',
                    path=g.describe_path([a] + (p or [])))
     else:
       r_fd.ok('stop observed at line %d -> drain before return' % a.lineno, wf.loc(a.ast))
   # the loop must not be leavable without observing the stop at all (e.g. a bare return/break in the body)
-  if stop_edges:
-    stop_pairs = {(id(a), id(b)) for a, _, b in stop_edges}
-    rr = g.reach([g.entry], removed_nodes=drains,
-                 removed_edge=lambda a, lab, b: (id(a), id(b)) in stop_pairs and isinstance(lab, tuple))
-    if g.exit in rr:
-      p = g.path([g.entry], g.exit, removed_nodes=drains,
-                 removed_edge=lambda a, lab, b: (id(a), id(b)) in stop_pairs and isinstance(lab, tuple))
-      # returning without ever draining and without observing the stop
+  if reads:
+    rr = g.reach([g.entry], removed_nodes=drains | set(reads))
+    from ..paths import feasible_exit_avoiding
+    if g.exit in rr and feasible_exit_avoiding(cx, wf, drains | set(reads)) is not None:
+      p = g.path([g.entry], g.exit, removed_nodes=drains | set(reads))
       last = [x for x in (p or []) if x.ast is not None]
       r_fd.violate('exit without stop or drain', wf, last[-1].ast if last else wf.node,
                    'writeForever can return on a path that neither observes the stop nor drains',
